@@ -52,7 +52,7 @@ struct Reply {
 }
 
 enum Cmd {
-    Generate(Arc<str>, u64, u32),
+    Generate(Arc<str>, u64, u32, u8),
     Canary,
     Exit,
 }
@@ -95,7 +95,14 @@ impl SimThread {
                 TL_KEYS.with(|k| k.set(Some(keys)));
                 while let Ok(cmd) = crx.recv() {
                     match cmd {
-                        Cmd::Generate(text, env_salt, sim_cpus) => {
+                        Cmd::Generate(text, env_salt, sim_cpus, placement) => {
+                            // where the caller's buffer sits is ambient state too: the same bytes are
+                            // handed over at address = 16-aligned + placement (0 = canonical)
+                            let mut buf: Vec<u8> = vec![0u8; text.len() + 32];
+                            let base = buf.as_ptr() as usize;
+                            let off = ((16 - (base % 16)) % 16) + (placement as usize % 16);
+                            buf[off..off + text.len()].copy_from_slice(text.as_bytes());
+                            let placed: &str = std::str::from_utf8(&buf[off..off + text.len()]).expect("utf8");
                             let g0 = GETRANDOM_IN_GENERATE.load(Ordering::SeqCst);
                             let c0 = CLOCK_READS_IN_GENERATE.load(Ordering::SeqCst);
                             let e0 = GETENV_IN_GENERATE.load(Ordering::SeqCst);
@@ -103,7 +110,7 @@ impl SimThread {
                             TL_ENV_SALT.with(|s| s.set(env_salt));
                             TL_SIM_CPUS.with(|c| c.set(sim_cpus));
                             TL_IN_GENERATE.with(|f| f.set(true));
-                            let outcome = run_generate(&text);
+                            let outcome = run_generate(placed);
                             TL_IN_GENERATE.with(|f| f.set(false));
                             TL_ENV_SALT.with(|s| s.set(0));
                             TL_SIM_CPUS.with(|c| c.set(0));
@@ -239,6 +246,8 @@ struct Step {
     /// number of CPUs `sched_getaffinity` reports inside the call (0 = the real mask;
     /// the canonical configuration reports 1)
     cpus: u32,
+    /// address of the text buffer handed to generate, modulo 16 (0 = canonical)
+    placement: u8,
     text: usize,
 }
 
@@ -275,7 +284,7 @@ fn timeout_outcome() -> Outcome {
 fn canonical(text: &str, base_dir: &str) -> Outcome {
     reset_ambient(base_dir);
     let t = SimThread::spawn((0, 0));
-    match t.call(Cmd::Generate(Arc::from(text), 0, 1)) {
+    match t.call(Cmd::Generate(Arc::from(text), 0, 1, 0)) {
         Some(r) => {
             t.retire();
             r.outcome
@@ -315,7 +324,7 @@ fn exec_script(script: &Script, texts: &[Arc<str>], base_dir: &str, upto: Option
             threads[st.inc] = Some(SimThread::spawn(script.incarnations[st.inc]));
         }
         SIM_TICK_NS.store(st.clock_tick_ns, Ordering::SeqCst);
-        let r = threads[st.inc].as_ref().unwrap().call(Cmd::Generate(texts[st.text].clone(), st.env_salt, st.cpus));
+        let r = threads[st.inc].as_ref().unwrap().call(Cmd::Generate(texts[st.text].clone(), st.env_salt, st.cpus, st.placement));
         SIM_TICK_NS.store(0, Ordering::SeqCst);
         calls[st.inc] += 1;
         let r = match r {
@@ -423,7 +432,8 @@ fn draw_script(rng: &mut Rng, n_texts: usize, base_dir: &str) -> (Script, J) {
             mono_jump_ns: mj,
             clock_tick_ns,
             env_salt,
-            cpus: *rng.pick(&[1u32, 1, 2, 3, 8, 64, 0]),
+            cpus: if rng.chance(1, 2) { rng.range(1, 64) as u32 } else { *rng.pick(&[1u32, 1, 2, 3, 8, 64, 128, 0]) },
+            placement: if rng.chance(1, 2) { rng.below(16) as u8 } else { 0 },
             text: rng.below(n_texts),
         });
     }
@@ -478,6 +488,7 @@ fn script_to_json(s: &Script) -> J {
                             .set("clock_tick_ns", J::Int(st.clock_tick_ns as i128))
                             .set("env_salt", J::Int(st.env_salt as i128))
                             .set("cpus", J::Int(st.cpus as i128))
+                            .set("placement", J::Int(st.placement as i128))
                             .set("text", J::uz(st.text))
                     })
                     .collect(),
@@ -506,6 +517,7 @@ fn script_from_json(j: &J) -> Result<Script, String> {
             clock_tick_ns: st.get("clock_tick_ns").and_then(|x| x.as_int()).unwrap_or(0) as u64,
             env_salt: st.get("env_salt").and_then(|x| x.as_int()).unwrap_or(0) as u64,
             cpus: st.get("cpus").and_then(|x| x.as_int()).unwrap_or(1) as u32,
+            placement: st.get("placement").and_then(|x| x.as_int()).unwrap_or(0) as u8,
             text: st.get("text").and_then(|x| x.as_usize()).ok_or("text")?,
         });
     }
@@ -762,7 +774,7 @@ fn shrink(mut f: Failure, base_dir: &str, budget: usize) -> (Failure, usize) {
     }
     // 2. drop ambient mutations and clock jumps, step by step
     for i in 0..f.script.steps.len() {
-        for what in 0..6 {
+        for what in 0..7 {
             if steps >= budget {
                 break;
             }
@@ -778,6 +790,7 @@ fn shrink(mut f: Failure, base_dir: &str, budget: usize) -> (Failure, usize) {
                 3 if st.clock_tick_ns != 0 => st.clock_tick_ns = 0,
                 4 if st.env_salt != 0 => st.env_salt = 0,
                 5 if st.cpus != 1 => st.cpus = 1,
+                6 if st.placement != 0 => st.placement = 0,
                 _ => continue,
             }
             steps += 1;
@@ -1058,8 +1071,10 @@ fn main() {
                 }
                 let n_texts = ids.len();
                 let mut texts: Vec<Arc<str>> = vec![];
+                let mut cats: Vec<&'static str> = vec![];
                 for id in &ids {
                     let (t, cat, planted) = corpus.get(*id);
+                    cats.push(cat);
                     if !canon.contains_key(id) {
                         let c = canonical(&t, &base_dir);
                         // every 12th new text (decided by the text id alone): what does the FIRST
@@ -1168,9 +1183,42 @@ fn main() {
                                     clock_tick_ns: 0,
                                     env_salt: 0,
                                     cpus: 1,
+                                    placement: 0,
                                     text: t,
                                 });
                             }
+                        }
+                    }
+                }
+                // CPU-count sweep: one of the run's texts under every CPU count from 2 to 16 (work that
+                // is split by available_parallelism() has its boundaries moved by each value). Half of
+                // the runs holding a big conflicting grammar do it, one run in twelve otherwise.
+                {
+                    let big: Vec<usize> = (0..ids.len()).filter(|i| cats[*i] == "conflict-big").collect();
+                    let pick = if !big.is_empty() && rng.chance(4, 5) {
+                        Some(big[rng.below(big.len())])
+                    } else if rng.chance(1, 12) {
+                        Some(rng.below(ids.len()))
+                    } else {
+                        None
+                    };
+                    if let Some(t) = pick {
+                        let k = (rng.next_u64(), rng.next_u64());
+                        script.incarnations.push(k);
+                        let inc = script.incarnations.len() - 1;
+                        for cpus in 2..=16u32 {
+                            script.steps.push(Step {
+                                inc,
+                                env: vec![],
+                                cwd: None,
+                                real_jump_ns: 0,
+                                mono_jump_ns: 0,
+                                clock_tick_ns: 0,
+                                env_salt: 0,
+                                cpus,
+                                placement: 0,
+                                text: t,
+                            });
                         }
                     }
                 }
@@ -1394,7 +1442,7 @@ fn main() {
             let file = args.get(2).expect("text file");
             let t = std::fs::read_to_string(file).expect("read");
             let th = SimThread::spawn((0, 0));
-            let o = match th.call(Cmd::Generate(Arc::from(t.as_str()), 0, 1)) {
+            let o = match th.call(Cmd::Generate(Arc::from(t.as_str()), 0, 1, 0)) {
                 Some(r) => {
                     th.retire();
                     r.outcome
